@@ -170,8 +170,17 @@ def g_conv(rng):
 def g_conv1d(rng):
     a = rarr(rng, ["int32", "float32", "float64"], lo=-3, hi=4)
     k = rng.choice([1, 2, 3, 5, 8])
-    w = A("float64", [k], [rng.randint(-2, 3) for _ in range(k)])
+    # fractional weights too (quarters: exact in every float type); with an integer image the documented conversion of the
+    # weights to the image's dtype must be the same on the contiguous fast path and on the generic path
+    q = 0.25 if rng.random() < 0.5 else 1
+    w = A("float64", [k], [rng.randint(-6, 9) * q for _ in range(k)])
     return [a, w, rng.randrange(-len(a["shape"]), len(a["shape"]))], {"mode": rng.choice(MODES)}
+
+
+def g_haralick_features(rng):
+    m = rng.randint(2, 5)
+    k = rng.choice([4, 13])
+    return [A("int32", [k, m, m], [rng.randint(0, 6) for _ in range(k * m * m)])], {"ignore_zeros": rng.random() < 0.6}
 
 
 def g_gauss(rng):
@@ -576,7 +585,7 @@ REG = [
     _morph_bool("locmax"), _morph_bool("locmin"), _morph_bool("regmax"), _morph_bool("regmin"),
     E("cwatershed", g_ws, gil=True),
     E("close_holes", g_bool2), E("hitmiss", g_hitmiss, gil=True), E("majority_filter", g_majority),
-    E("convolve", g_conv, gil=True), E("convolve1d", g_conv1d, gil=True),
+    E("convolve", g_conv, gil=True), E("convolve1d", g_conv1d, gil=True), E("features.texture.haralick_features", g_haralick_features, float_out=True),
     E("gaussian_filter", g_gauss, gil=True, float_out=True), E("gaussian_filter1d", g_gauss, gil=True, float_out=True),
     E("median_filter", lambda r: (g_filter(r)[0][:2], {"mode": r.choice(MODES[:5])}), gil=True),
     E("rank_filter", lambda r: g_filter(r, True), gil=True),
